@@ -485,23 +485,26 @@ def superSubDiags (path : String) (env : Env) (s : Schema) (e : Entity) : List D
       | some q => some (mk path LibErrors.SUBTYPE_RESOLVE e.line (subtypeResolveArgs n q.1 q.2))
       | none => some (mk path LibErrors.UNKNOWN_SUBTYPE e.line [sArg n, sArg e.name]))
 
+/-- `TYPEresolve` of one type declaration -/
+def typeDeclDiags (path : String) (env : Env) (s : Schema) (t : TypeDecl) : List Diag :=
+  match t.body with
+  | .ref r =>
+    -- `TYPE t = t;` / `TYPE t = LIST OF t;` (longer cycles are reported in a hash-order dependent way: not modelled)
+    (match r.core with
+     | .named n _ => if n = t.name then [mk path LibErrors.CIRCULAR_REFERENCE t.line [sArg n]] else []
+     | _ => []) ++
+    typeRefDiags path env s r ++
+    -- `TYPE t = e;` with `e` an entity (the check sits behind `ERRORis_enabled( TYPE_IS_ENTITY )`, always on)
+    (match r with
+     | .named n _ => if isEnt env s n then [mk path LibErrors.TYPE_IS_ENTITY t.line [sArg n]] else []
+     | _ => [])
+  | .select items => items.flatMap fun x => typeRefDiags path env s (.named x.1 x.2)
+  | .enum _ => []
+
 def pass3 (path : String) (env : Env) (s : Schema) : List Diag :=
   s.decls.flatMap fun
     | .entity e => superSubDiags path env s e
-    | .type t =>
-      (match t.body with
-       | .ref r =>
-         -- `TYPE t = t;` / `TYPE t = LIST OF t;` (longer cycles are reported in a hash-order dependent way: not modelled)
-         (match r.core with
-          | .named n _ => if n = t.name then [mk path LibErrors.CIRCULAR_REFERENCE t.line [sArg n]] else []
-          | _ => []) ++
-         typeRefDiags path env s r ++
-         -- `TYPE t = e;` with `e` an entity (the check sits behind `ERRORis_enabled( TYPE_IS_ENTITY )`, always on)
-         (match r with
-          | .named n _ => if isEnt env s n then [mk path LibErrors.TYPE_IS_ENTITY t.line [sArg n]] else []
-          | _ => [])
-       | .select items => items.flatMap fun (n, l) => typeRefDiags path env s (.named n l)
-       | .enum _ => [])
+    | .type t => typeDeclDiags path env s t
     | _ => []
 
 /-- the messages of one cycle search started at `start` -/
@@ -596,25 +599,34 @@ def nestingDiags (path : String) (e : Entity) : List Diag :=
       [.str ("More than " ++ toString k ++ " levels of nesting").toList, .str "one".toList, .str "chain of subtypes".toList]]
   | none => []
 
+/-- `TYPEcheck_select_cyclicity` for one type declaration -/
+def selectCycleDiags (path : String) (s : Schema) (t : TypeDecl) : List Diag :=
+  match t.body with
+  | .select _ =>
+    cycleDiags path LibErrors.SELECT_LOOP LibErrors.SELECT_CONTINUATION (lineOfType s) t.name
+      (dfs ResolveGen.visitedReturnsSelect t.name (selectGraph s) (s.decls.length + 1) (selectGraph s t.name) [])
+  | _ => []
+
+/-- `ENTITYresolve_types`: attribute types and INVERSE clauses -/
+def attrDiags (path : String) (env : Env) (s : Schema) (fuel : Nat) (e : Entity) : List Diag :=
+  e.attrs.flatMap fun a => typeRefDiags path env s a.ty ++
+    (if (typeRefDiags path env s a.ty).isEmpty then inverseDiags path s a (fun en an => namedAttr s an fuel en = some true) else [])
+
+/-- `ENTITYcheck_subsuper_cyclicity` (behind a recursion-depth guard when the code has one) -/
+def subsuperCycleDiags (path : String) (s : Schema) (e : Entity) : List Diag :=
+  match dfs ResolveGen.visitedReturnsSubsuper e.name (subGraph s) (subsuperFuel s) (subGraph s e.name) [] with
+  | none => nestingDiags path e
+  | some r => cycleDiags path LibErrors.SUBSUPER_LOOP LibErrors.SUBSUPER_CONTINUATION (lineOfEntity s) e.name (some r)
+
+/-- pass 4 for one entity -/
+def entityPass4 (path : String) (env : Env) (s : Schema) (e : Entity) : List Diag :=
+  missingSuperDiags path s e ++ attrDiags path env s (s.decls.length + 1) e ++
+    (e.uniques.flatMap (uniqueDiags path s e (s.decls.length + 1))) ++ subsuperCycleDiags path s e
+
 def pass4 (path : String) (env : Env) (s : Schema) : List Diag :=
-  let fuel := s.decls.length + 1
   s.decls.flatMap fun
-    | .type t =>
-      (match t.body with
-       | .select _ =>
-         cycleDiags path LibErrors.SELECT_LOOP LibErrors.SELECT_CONTINUATION (lineOfType s) t.name
-           (dfs ResolveGen.visitedReturnsSelect t.name (selectGraph s) fuel (selectGraph s t.name) [])
-       | _ => [])
-    | .entity e =>
-      missingSuperDiags path s e ++
-      -- ENTITYresolve_types
-      (e.attrs.flatMap fun a => typeRefDiags path env s a.ty ++
-        (if (typeRefDiags path env s a.ty).isEmpty then inverseDiags path s a (fun en an => namedAttr s an fuel en = some true) else [])) ++
-      (e.uniques.flatMap (uniqueDiags path s e fuel)) ++
-      -- ENTITYcheck_subsuper_cyclicity (behind a recursion-depth guard when the code has one)
-      (match dfs ResolveGen.visitedReturnsSubsuper e.name (subGraph s) (subsuperFuel s) (subGraph s e.name) [] with
-       | none => nestingDiags path e
-       | some r => cycleDiags path LibErrors.SUBSUPER_LOOP LibErrors.SUBSUPER_CONTINUATION (lineOfEntity s) e.name (some r))
+    | .type t => selectCycleDiags path s t
+    | .entity e => entityPass4 path env s e
     | _ => []
 
 /-- a function call inside a domain rule: arity warning, or undefined function (+ the MISSING_SELF it entails: the
